@@ -90,7 +90,10 @@ def run(name, checks):
     if not os.path.isdir(wt):
         sh("git -C /repo worktree add --detach %s HEAD" % wt)
     sh("git checkout -q --detach $(git -C /repo rev-parse HEAD) && git checkout -- . && git clean -fdq", cwd=wt)
-    rc, out = sh("git apply %s" % os.path.join(d, "patch.diff"), cwd=wt)
+    pf = os.path.join(d, "patch.diff")
+    rc, out = sh("git apply %s" % pf, cwd=wt)
+    if rc != 0:   # context drifted (later hook / fix commits): retry with less context, then with fuzz
+        rc, out = sh("git apply -C1 --recount %s || patch -p1 -F3 --no-backup-if-mismatch < %s" % (pf, pf), cwd=wt)
     if rc != 0:
         print("patch does not apply:", out); return 2
     res = {}
